@@ -4,14 +4,51 @@ TEMPLATE for the other property modules: proof stage, correspondence stage, sear
 """
 import os
 from checklib import core
+from checklib.props import stm_common as sc
 
-BINS = ["objseq"]
+BINS = ["objseq", "frontobj", "e2e"]
 PID = "C15"
 
 
 def setup():
-    core.coq_build(["Cursor/Extract.vo"])
+    core.coq_build(["Cursor/Extract.vo", "Frontier/Extract.vo", "Stm/Extract.vo"])
     core.ocaml_build("cursor", "cursor", "cursor_drv")
+    core.ocaml_build("frontier", "frontier", "frontier_drv")
+    core.ocaml_build("stm", "stm", "stm_drv")
+
+
+def frontier_stage(ctx, exe, model, count):
+    """Real ExecutionFrontier under the deterministic driver; every trace replayed by the extracted
+    Frontier acceptor, plus direct predicates on the returned values (see ocaml/frontier_drv.ml)."""
+    out = os.path.join(ctx.work, "frontier.txt")
+    rc, o = core.sh([exe, str(ctx.seed), str(count), out], timeout=1500)
+    if rc != 0:
+        raise RuntimeError("frontobj failed: " + o[-2000:])
+    rc, verdicts = core.sh([model, out], timeout=1500)
+    v = verdicts.splitlines()
+    res = dict(cases=len(v), accept=0, direct=[], reject=[], fetch_max=0, helped=0, returned=0, driver_failures=0)
+    for line in v:
+        if line.startswith("ACCEPT"):
+            res["accept"] += 1
+            kv = dict(x.split("=") for x in line.split()[1:])
+            res["fetch_max"] += int(kv["fetch_max"]); res["helped"] += int(kv["helped"]); res["returned"] += int(kv["returned"])
+        elif line.startswith("DIRECT"):
+            res["direct"].append(line)
+        else:
+            res["reject"].append(line)
+    res["driver_failures"] = sum(1 for l in open(out) if l.startswith("# case") and "failure=None" not in l)
+    res["trace_file"] = out
+    return res
+
+
+def stm_sweeps(ctx):
+    q = ctx.quick
+    # rewind-heavy: shared slots, few transactions, more workers than transactions
+    return [
+        ("v-rw", 151, 400 if q else 6000, ["txs=2..5", "workers=2,3,4", "opts=shared,ben"]),
+        ("v-pct", 152, 250 if q else 4000, ["txs=3..7", "workers=3,4", "strat=pct", "opts=shared"]),
+        ("v-sticky", 153, 250 if q else 4000, ["txs=3..8", "workers=2,3", "strat=sticky", "opts=shared,ben"]),
+    ]
 
 
 def seq_differential(ctx, kind, exe, model, count):
@@ -42,8 +79,35 @@ def run(ctx):
     count = 3000 if ctx.quick else 60000
     d = seq_differential(ctx, "cursor", bins["objseq"], model, count)
     corr_ok = d["first_diff"] is None
+    fmodel = core.ocaml_build("frontier", "frontier", "frontier_drv")
+    fr = frontier_stage(ctx, bins["frontobj"], fmodel, 3000 if ctx.quick else 60000)
+    # protocol level: the timestamp discipline of rewind_validation_to / finality, observed on
+    # driven runs of the real Scheduler (trace acceptance + in-order oracle)
+    agg, sbins, smodel = sc.run_sweeps(ctx, stm_sweeps(ctx))
+    stm_corr = agg["rejected"] + agg["nondet"] + agg["model_vs_oracle"]
 
-    if not proof["ok"] or not corr_ok:
+    if fr["direct"]:
+        ctx.violation("the first-unexecuted frontier passes an unexecuted transaction or fails to catch up with completed ones",
+                      dict(witness=fr["direct"][0], replay="target/release/frontobj %d %d <out>; build/frontier_model <out>" % (ctx.seed, fr["cases"]), seed=ctx.seed), True)
+    elif agg["oracle_mismatch"]:
+        c = agg["oracle_mismatch"][0]
+        ctx.violation("a validation that predates a rewind made its transaction final (result differs from in-order execution)",
+                      dict(replay=sc.replay_cmd(c), case=c, detail=open(c["file"]).read()[:4000] if c.get("file") else "", seed=ctx.seed), True)
+    elif fr["reject"] or fr["driver_failures"] or stm_corr:
+        broken = list(proof["problems"]) if not proof["ok"] else []
+        for r in fr["reject"][:3]:
+            broken.append("frontier trace not accepted by the Coq acceptor: " + r[:400])
+        if fr["driver_failures"]:
+            broken.append("%d frontier cases ended with a driver failure (deadlock / step budget)" % fr["driver_failures"])
+        for c in stm_corr[:3]:
+            broken.append("scheduler trace not accepted by the Coq acceptor: %s [%s]" % (c["why"][:300], sc.replay_cmd(c)))
+        found, tried = sc.search_schedules(ctx, sbins, stm_corr, [], 60 if ctx.quick else 600) if stm_corr else ([], 0)
+        if found:
+            ctx.violation("a validation that predates a rewind made its transaction final (result differs from in-order execution)",
+                          dict(found=found[0], broken=broken, seed=ctx.seed), True)
+        else:
+            ctx.violation("theorem or correspondence no longer checks", dict(broken=broken, schedules_searched=tried, seed=ctx.seed), False)
+    elif not proof["ok"] or not corr_ok:
         # search stage: does the *property itself* fail on the implementation?  Direct predicates on
         # the values the real cursor returned, independent of the model.
         witness = None
@@ -68,12 +132,20 @@ def run(ctx):
         checker_cmd="make -f Makefile.coq Props/C15.vo (coqc 8.16.1)" + ("; coqchk -silent -o Grevm.Props.C15" if not ctx.quick else ""),
         trusted_base=core.TRUSTED_COMMON + ["axioms per Print Assumptions: " + str(proof["axioms"])],
         theorems=proof["theorems"],
-        evaluations=len(d["cases"]), distinct_nontrivial=d["nontrivial"],
-        rule="seeded random op sequences (claim_before(limit) / rewind(v)) on the real RewindableCursor vs the extracted Coq model (sequential reference + acceptor on the generated event list); non-trivial = distinct sequence containing both a claim and a rewind",
+        evaluations=len(d["cases"]) + fr["cases"] + agg["cases"], distinct_nontrivial=d["nontrivial"] + agg["nontrivial"],
+        traces_validated_against_impl=fr["accept"] + agg["accepted"],
+        frontier=dict(cases=fr["cases"], accepted=fr["accept"], fetch_max_events=fr["fetch_max"], current_calls=fr["returned"],
+                      current_calls_with_positive_lower_bound=fr["helped"],
+                      rule="2-4 threads publish a random subset of 2-6 indices in random order and call current() on the real ExecutionFrontier under the deterministic driver (random walk / PCT); each trace replayed by the extracted Frontier acceptor; direct predicates: returned value has all flags below it stored, is >= the number of leading completed publishes at call time, final frontier == first unpublished index"),
+        scheduler=dict(cases=agg["cases"], acceptor_verdicts=agg["kinds"], decisive_events=agg["feature_totals"], nontrivial=agg["nontrivial"],
+                       rule="driven runs of the real Scheduler (rewind-heavy blocks); hook trace (clock_tick / lower_max / cur_rewind / unconf_max / fin_check) replayed by the extracted Stm acceptor, result compared with in-order stock revm"),
+        rule="cursor: seeded random op sequences (claim_before(limit) / rewind(v)) on the real RewindableCursor vs the extracted Coq model (sequential reference + acceptor on the generated event list); non-trivial = distinct sequence containing both a claim and a rewind",
         samples=[dict(case=d["cases"][i], impl=d["impl"][i], model=d["model"][i]) for i in range(min(3, len(d["cases"])))],
     )
     return ctx.finish("proof", cov, [
-        "theorems are about the Gallina model Cursor/Model.v; the tie to src/scheduler/cursor.rs is the differential above",
+        "theorems are about the Gallina models Cursor/Model.v, Frontier/Model.v, Stm/Core.v; the tie to src/scheduler/{cursor,context}.rs is the differentials / trace acceptance above (sampled schedules)",
+        "weak-memory behaviour is in the models (stale loads, spurious CAS failure, stale-false flag loads) and proved; the driver only produces sequentially consistent interleavings at hook-point granularity, so the correspondence exercises the SC subset of the models' behaviours",
+        "catch-up under the declared orderings is proved for helping readers (C15_frontier_catches_up); publishers alone can leave the frontier behind (C15_catch_up_witness)",
     ])
 
 
